@@ -327,6 +327,13 @@ def build(rng, name, opts=None):
             "",
         ]
         feats.append("deep-nested-class" + ("+mid-method" if mid_method else ""))
+    if chance(0.3, "same-named-nested-classes"):
+        L += ["", "class Order:", "    class Meta:", "        def table(self, prefix):", "            return prefix + 'orders'", "",
+              "    def total(self, n):", "        return n * 2", "", "",
+              "class Invoice:", "    class Meta:", "        def table(self, prefix, upper=False):", "            return (prefix + 'invoices').upper() if upper else prefix + 'invoices'", "",
+              "        def columns(self):", "            return ['id']", "", "",
+              "class Meta:", "    def table(self, n):", "        return n", ""]
+        feats.append("same-named-nested-classes")
     L += ["", "def workload():", "    out = []"]
     L += ["    c = make_circle(2)", "    out.append(c.area())", "    out.append(total_area([c, make_circle(1)]))", "    out.append(total_area([], scale=2))"]
     src = "\n".join(L)
@@ -359,6 +366,9 @@ def build(rng, name, opts=None):
         L += ["    out.append(Registry.Section.Entry().value(3))", "    out.append(Registry.Section.Entry.blank())"]
         if "def title(" in src:
             L += ["    out.append(Registry.Section().title('t'))"]
+    if "class Invoice" in src:
+        L += ["    out.append(Order.Meta().table('t_'))", "    out.append(Invoice.Meta().table('t_', upper=True))", "    out.append(Invoice.Meta().columns())",
+              "    out.append(Order().total(2))", "    out.append(Meta().table(3))"]
     if "CONSTANT" in src:
         L += ["    out.append(CONSTANT + TABLE['a'])"]
     L += ["    return out", "", "", "if __name__ == '__main__':", "    print(workload())  # end of file comment", ""]
